@@ -4,6 +4,7 @@ import (
 	"fmt"
 	"html/template"
 	"strings"
+	"time"
 
 	"github.com/gobuffalo/plush/v5"
 
@@ -17,9 +18,13 @@ import (
 type c17Data struct {
 	iv int
 	sv string
+	tf string // a TIME_FORMAT of the data's own ("" = none): times in the body print in it
 }
 
 func (d c17Data) lit(extra string) string {
+	if d.tf != "" {
+		extra = fmt.Sprintf(", TIME_FORMAT: \"%s\"", d.tf) + extra
+	}
 	return fmt.Sprintf("{iv: %d, sv: \"%s\"%s}", d.iv, strings.Replace(d.sv, "\"", "\\\"", -1), extra)
 }
 
@@ -27,6 +32,7 @@ func c17Base(env *progEnv, partials map[string]string, contentType string) *plus
 	ctx := progCtx(env)
 	ctx.Set("iv", 100) // outer values that data must shadow
 	ctx.Set("sv", "outer")
+	ctx.Set("when", time.Date(2021, 3, 4, 5, 6, 7, 0, time.UTC))
 	ctx.Set("capWith", func(data map[string]interface{}, h plush.HelperContext) (template.HTML, error) {
 		nc := h.New()
 		for k, v := range data {
@@ -69,6 +75,9 @@ func c17Inline(body string, d *c17Data, partials map[string]string, contentType 
 	if d != nil {
 		ctx.Set("iv", d.iv)
 		ctx.Set("sv", d.sv)
+		if d.tf != "" {
+			ctx.Set("TIME_FORMAT", d.tf)
+		}
 	}
 	r := renderQuiet(body, ctx)
 	return r, env.trace
@@ -132,6 +141,13 @@ func c17Run(b *core.B) {
 			}
 		}
 		d := c17Data{iv: r.Intn(50), sv: pick(r, []string{"x", "y<z", "q\"uote", ""})}
+		if r.Chance(1, 3) {
+			// a time in the body, and in half of these cases a time format that comes with the data
+			body += "<%= when %>"
+			if r.Bool() {
+				d.tf = pick(r, []string{"2006", "Jan 2", "15h04"})
+			}
+		}
 		ct := pick(r, []string{"", "", "text/html", "application/javascript"})
 		pre, post := pick(r, []string{"", "pre ", "<p>"}), pick(r, []string{"", " post", "</p>\n"})
 		kind := r.Intn(14)
@@ -193,7 +209,7 @@ func c17Run(b *core.B) {
 			tmpl = pre + "<% contentFor(\"blk\") { %>" + body + "<% } %>" + "mid"
 			want = pre + "mid"
 			for j := 0; j < k; j++ {
-				dj := c17Data{iv: d.iv + j, sv: d.sv}
+				dj := c17Data{iv: d.iv + j, sv: d.sv, tf: d.tf}
 				if r.Chance(1, 4) {
 					tmpl += "<%= contentOf(\"blk\") %>"
 					want += inl(nil, false)
